@@ -656,10 +656,25 @@ loop:
 			}
 			reqs = e.outstandingIn(b)
 			return len(reqs) > 0
-		}, time.Until(deadline))
+		}, minDur(time.Until(deadline), 1500*time.Millisecond))
 		switch {
 		case done.Load():
 			break loop
+		case len(reqs) == 0 && !hasClosingTag(e.sv.Conn.Output()) && time.Now().Before(deadline):
+			// nothing new on the wire for a while.  If the helper and this session's
+			// serve loop are both parked in channel operations inside the library
+			// although every request on the wire has been answered, they wait for
+			// each other: only the context's time limit would end this (and nothing
+			// would with a context that does not end)
+			if hg := frameWedged(mk); hg != "" && len(e.outstanding()) == 0 && res.requests > 0 {
+				if sg := serveWedged(e.sv); sg != "" {
+					time.Sleep(300 * time.Millisecond)
+					if hg2, sg2 := frameWedged(mk), serveWedged(e.sv); hg2 != "" && sg2 != "" && !done.Load() && len(e.outstanding()) == 0 {
+						fail("the request helper and the serve loop wait for each other: every request the helper put on the wire (%d) has been answered, and both are parked in channel/mutex operations inside the library; the call would never return with a context that does not end\n%s\nhistory:\n  %s\n\nhelper goroutine:\n%s\n\nserve goroutine:\n%s", res.requests, c.String(), strings.Join(res.history, "\n  "), hg2, sg2)
+					}
+				}
+			}
+			continue loop
 		case len(reqs) > 0:
 			var sb strings.Builder
 			for _, r := range reqs {
@@ -729,6 +744,13 @@ loop:
 		return res, true
 	}
 	return res, false
+}
+
+func minDur(a, b time.Duration) time.Duration {
+	if a < b {
+		return a
+	}
+	return b
 }
 
 // wellFormed reports whether s is a sequence of complete, well-formed elements.
